@@ -892,8 +892,15 @@ class Interp:
                 parts.append(v.value)
             else:
                 x = self.eval(v.value, fr)
-                parts.append(self.to_str(x))
-        return self.concat_str(parts)
+                try:
+                    parts.append(self.to_str(x))
+                except Unsupported:
+                    # message formatting: the text of diagnostics does not matter to any property
+                    return "<formatted message>"
+        try:
+            return self.concat_str(parts)
+        except Unsupported:
+            return "<formatted message>"
 
     def to_str(self, x):
         if isinstance(x, (str, SStr)) or hasattr(x, "concat_const"):
